@@ -39,7 +39,7 @@ def grammar():
 
 
 NATIVE = r'''
-import socket, json, sys, itertools
+import socket, json, sys, itertools, random
 sys.path.insert(0, %(native)r)
 import fakenet as F
 from ssh_audit.banner import Banner
@@ -123,16 +123,31 @@ for hdr in ([b'Welcome to host'], [b'line one', b'line two']):
     if not got or got[0] != want or any(l.decode() not in out for l in hdr):
         fail({'header lines': [l.decode() for l in hdr]}, got[:2], want, 'header-in-report')
 # product families
-fam = [('OpenSSH_%%s', 'OpenSSH'), ('dropbear_%%s', 'Dropbear SSH'), ('libssh-%%s', 'libssh'), ('libssh_%%s', 'libssh'), ('tinyssh_%%s', 'TinySSH'), ('PuTTY_Release_%%s', 'PuTTY')]
-for tmpl, prod in fam:
-    for ver in ('7.4', '10.0', '0.10.6', '2022.83', '9.9p1'):
+fam = [('OpenSSH_%%s', 'OpenSSH', None), ('OpenSSH-%%s', 'OpenSSH', None), ('dropbear_%%s', 'Dropbear SSH', None), ('libssh-%%s', 'libssh', None), ('libssh_%%s', 'libssh', None),
+       ('tinyssh_%%s', 'TinySSH', None), ('PuTTY_Release_%%s', 'PuTTY', None), ('RomSShell_%%s', 'RomSShell', 'Allegro Software'), ('mpSSH_%%s', 'iLO (Integrated Lights-Out) sshd', 'HP'),
+       ('Cisco-%%s', 'IOS/PIX sshd', 'Cisco'), ('lancom%%s', 'LCOS sshd', 'LANcom')]
+_r = random.Random(1616)
+vers = ['7.4', '10.0', '0.10.6', '2022.83', '9.9p1', '1.25', '5.40'] + ['%%d.%%d' %% (_r.randrange(0, 30), _r.randrange(0, 120)) for _ in range(6)] + ['%%d.%%d.%%d' %% (_r.randrange(0, 12), _r.randrange(0, 30), _r.randrange(0, 9)) for _ in range(4)]
+for tmpl, prod, vendor in fam:
+    for ver in vers:
         if 'p' in ver and prod != 'OpenSSH':
             continue
         cases += 1
         b = Banner.parse('SSH-2.0-' + tmpl %% ver)
         s = Software.parse(b)
         wantv = ver.split('p')[0]
-        if s is None or s.product != prod or s.version != wantv or (ver.endswith('p1') and s.patch != 'p1'):
-            fail({'software': tmpl %% ver}, None if s is None else {'product': s.product, 'version': s.version, 'patch': s.patch}, {'product': prod, 'version': wantv}, 'product')
+        if s is None or s.product != prod or s.version != wantv or (ver.endswith('p1') and s.patch != 'p1') or s.vendor != vendor:
+            fail({'software': tmpl %% ver}, None if s is None else {'vendor': s.vendor, 'product': s.product, 'version': s.version, 'patch': s.patch}, {'vendor': vendor, 'product': prod, 'version': wantv}, 'product')
+            continue
+        # what the report shows for it: '<vendor> <product> <version>' (display form)
+        shown = s.display()
+        if prod not in shown or wantv not in shown or (vendor and vendor not in shown):
+            fail({'software': tmpl %% ver}, shown, 'vendor, product and version in the displayed software line', 'product-display')
+# a software string of no known family is not given a product
+for sw in ('FooSSH_1.0', 'openssh_9.9', 'XOpenSSH_9.9', 'Dropbear', 'libssh', 'mpSSH', 'Cisco'):
+    cases += 1
+    s = Software.parse(Banner.parse('SSH-2.0-' + sw))
+    if s is not None:
+        fail({'software': sw}, {'product': s.product, 'version': s.version}, None, 'product-unknown')
 print(json.dumps({'cases': cases, 'failures': failures}))
 '''
